@@ -122,6 +122,20 @@ void ext4_chan_closed(int chan, int end, int shut_wr_only)
 static void pump_set_bands(void *cookie, int pollin, int pollout);
 static void pump_destroy(struct rthr *th, int id, int from_pump);
 
+/* splice taken away after it has already been used (fault from a call index > 1) cannot be survived by a
+ * pump that holds data in its pipe: -1 is then an honest answer.  Absent from its first call (the probe)
+ * on, the pump must run in read/write mode and has no excuse. */
+static long splice_lost_midrun(void)
+{
+	int i;
+	if (!simk_stats.fault_fired[FS_SPLICE])
+		return 0;
+	for (i = 0; i < PL->nfaults; i++)
+		if (PL->faults[i].site == FS_SPLICE && PL->faults[i].k > 1)
+			return 1;
+	return 0;
+}
+
 static void pump_check_after(struct rthr *th, int id, int ret)
 {
 	struct robj *o = &RO[id];
@@ -159,8 +173,9 @@ static void pump_check_after(struct rthr *th, int id, int ret)
 		px->done = 1;
 	} else {
 		/* -1: only legitimate after an I/O error: an injected one, or the consumer having gone away */
-		if (!RO[b].xi[SX_CCLOSED] && simk_stats.fault_fired[FS_WRITE] + simk_stats.fault_fired[FS_READ] + simk_stats.fault_fired[FS_SPLICE] == px->calls * 0)
-			viol("C17.retval", "pump obj %d: returned -1 although no I/O error occurred", id);
+		if (!RO[b].xi[SX_CCLOSED] && simk_stats.fault_fired[FS_WRITE] + simk_stats.fault_fired[FS_READ] + splice_lost_midrun() == 0)
+			viol("C17.retval", "pump obj %d: returned -1 although no I/O error occurred%s", id,
+			     simk_stats.fault_fired[FS_SPLICE] ? " (splice is absent from its first call on: the pump has to work in read/write mode)" : "");
 		px->errored = 1;
 	}
 }
@@ -558,7 +573,9 @@ static int inot_reg(struct rthr *th, int id)
 	memset(o->mem, 0xA5, o->memsz);
 	IV_INOTIFY_INIT((struct iv_inotify *)o->mem);
 	reg_fault_arm(id, 1, FS_INOTIFY_INIT, EMFILE);
+	long ff0 = faults_fired_total();
 	if (iv_inotify_register(o->mem) != 0) {
+		unexplained_failure("iv_inotify_register", id, ff0);
 		reg_fault_disarm(FS_INOTIFY_INIT);
 		PROBE[PR_REG_FAILED_EXT]++;
 		obj_free_mem(id);
@@ -597,7 +614,8 @@ static int watch_reg(struct rthr *th, int id)
 {
 	struct robj *o = &RO[id];
 	const struct pobj *po = &PL->obj[id];
-	int inst = (int)po->p[0], i;
+	int inst = (int)po->p[0], i, exists;
+	long ff0, fsops0;
 	struct iv_inotify_watch *w;
 	char path[200];
 
@@ -622,7 +640,13 @@ static int watch_reg(struct rthr *th, int id)
 	w->cookie = new_cookie(id);
 	w->handler = h_watch;
 	reg_fault_arm(id, 1, FS_INOTIFY_ADD, ENOSPC);
+	ff0 = faults_fired_total();
+	exists = access(path, F_OK) == 0;
+	fsops0 = OPS[OP_FSOP];
 	if (iv_inotify_watch_register(w) != 0) {
+		/* (the driver may have removed the path while the call was on its way: then the failure is honest) */
+		if (exists && fsops0 == OPS[OP_FSOP] && access(path, F_OK) == 0)
+			unexplained_failure("iv_inotify_watch_register (path exists)", id, ff0);
 		reg_fault_disarm(FS_INOTIFY_ADD);
 		PROBE[PR_REG_FAILED_EXT]++;
 		obj_free_mem(id);
